@@ -30,6 +30,13 @@ REQ_PUSHED = [(b':method', b'GET'), (b':scheme', b'https'), (b':authority', b'cd
               (b':path', b'/pushed')]
 REQ_HOSTONLY = [(b':method', b'GET'), (b':scheme', b'https'), (b':path', b'/'),
                 (b'host', b'example.com')]
+# requests that only the LAST outbound checks refuse (after every other field was looked at)
+REQ_NOAUTH = [(b':method', b'GET'), (b':scheme', b'https'), (b':path', b'/'),
+              (b'x-indexable', b'value-1')]
+REQ_HOSTMISMATCH = [(b':method', b'GET'), (b':scheme', b'https'), (b':authority', b'a.example'),
+                    (b':path', b'/'), (b'x-indexable', b'value-2'), (b'host', b'b.example')]
+REQ_EMPTYPATH = [(b':method', b'GET'), (b':scheme', b'https'), (b':authority', b'example.com'),
+                 (b'x-indexable', b'value-3'), (b':path', b'')]
 RESP = [(b':status', b'200'), (b'server', b'x')]
 RESP204 = [(b':status', b'204')]
 RESP304 = [(b':status', b'304')]
